@@ -4,7 +4,7 @@
 //!        S <cap> <lo> <hi>                             exhaustive sweep (see `sweep`)
 //! out:   per call the identity class of the returned reference = index of the first call that
 //!        returned the same address (`N` for get_by_hash -> None), then n=<num_nodes> h=<hits>
-//!        order=<identity classes of the stored elements in slot order (iter())>
+//!        order=<identity classes of the stored elements (iter()), sorted: the slot layout is not compared>
 //!        sweep: n=<histories> digest=<fnv1a-64 of all result lines>
 use rsdd::verif::{BackedRobinhoodTable, TABLE_CAPACITY};
 use rsdd_verif_harness::*;
@@ -199,7 +199,12 @@ fn history(cap: Option<usize>, ops: &[Op]) -> Res {
         Some(c) => c.to_string(),
         None => "?".to_string(),
     }).collect();
-    line.push_str(&ord.join(","));
+    // compared as a SET (sorted): which slot an element sits in (capacity at that moment, probe
+    // order, the moment of a growth) is not fixed by the property; that every stored element is
+    // there exactly once, and found again by every later call, is
+    let mut sorted = ord.clone();
+    sorted.sort_by_key(|x| x.parse::<u64>().unwrap_or(u64::MAX));
+    line.push_str(&sorted.join(","));
     if ord.len() != nn {
         fails.push(format!("iter() yields {} elements but num_nodes = {nn}", ord.len()));
     }
